@@ -1,6 +1,11 @@
 package log
 
-import "reflect"
+import (
+	"io/fs"
+	"os"
+	"path/filepath"
+	"reflect"
+)
 
 // Source-level models of library functions whose real implementation needs reflection.
 // The engine redirects calls (see engine/intrinsics.go: redirects); natively the real
@@ -39,4 +44,36 @@ func vmExprParse(data string) (map[string]string, error) {
 		out[k] = v
 	}
 	return out, nil
+}
+
+// vmWalkDir models filepath.WalkDir over the file-system model, whose directories are flat: the
+// callback sees the root (or the error of looking it up, with a nil entry), then every entry in
+// lexical order; fs.SkipDir / fs.SkipAll end the walk as the real function does for a flat tree.
+func vmWalkDir(root string, fn fs.WalkDirFunc) error {
+	entries, err := os.ReadDir(root)
+	if err != nil {
+		err = fn(root, nil, err)
+		if err == filepath.SkipDir || err == filepath.SkipAll {
+			return nil
+		}
+		return err
+	}
+	if err := fn(root, &vDirEntry{name: filepath.Base(root), dir: true}, nil); err != nil {
+		if err == filepath.SkipDir || err == filepath.SkipAll {
+			return nil
+		}
+		return err
+	}
+	for _, e := range entries {
+		if err := fn(filepath.Join(root, e.Name()), e, nil); err != nil {
+			if err == filepath.SkipDir && e.IsDir() {
+				continue
+			}
+			if err == filepath.SkipDir || err == filepath.SkipAll {
+				return nil
+			}
+			return err
+		}
+	}
+	return nil
 }
